@@ -138,6 +138,13 @@ class LoopSpec(object):
         self.name = name
 
 
+class CutState(dict):
+    """the locals a cut (invariant / havoc / snapshot) may look at; a local the function no longer has means the cut no longer fits the code:
+    that is an engine escape (UNDECIDED), never an exception of the function under contract"""
+    def __missing__(self, k):
+        raise EngineEscape('the loop cut refers to a local variable %r that the function does not have (the code changed shape)' % (k,))
+
+
 class LoopCtx(object):
     def __init__(self, cutter, ordinal, spec, iterable, st, assigned):
         self.ordinal = ordinal
@@ -152,19 +159,19 @@ class LoopCtx(object):
             self.n = None
         self.tag = 'loop%d' % ordinal
         if hasattr(spec, 'snapshot'):
-            spec.snapshot(self, st)
+            spec.snapshot(self, CutState(st))
         core.prove('%s-inv-entry' % self.tag, self._inv(0 if self.n is not None else None, st), kind='loop')
 
     def _inv(self, k, st):
         self.k = z3.IntVal(k) if isinstance(k, int) else k
-        return self.spec.invariant(self, st)
+        return self.spec.invariant(self, CutState(st))
 
     def mode(self):
         return core.choice(2)
 
     def _havoc(self, st, k):
         self.k = k
-        new = self.spec.havoc(self, st) or {}
+        new = self.spec.havoc(self, CutState(st)) or {}
         out = []
         for nm in self.assigned:
             if nm in new:
@@ -173,7 +180,7 @@ class LoopCtx(object):
                 # a declared temporary, or a local the cut does not know (the body changed): dead at the loop head as far as the cut is
                 # concerned - any use before it is assigned again is an engine escape (sound: Undefined answers nothing)
                 out.append(Undefined())
-        st2 = dict(st)
+        st2 = CutState(st)
         st2.update(zip(self.assigned, out))
         core.assume(self.spec.invariant(self, st2))
         self._mut = [(m, m._ver) for m in _reachable_mutables(st2)]
